@@ -393,12 +393,12 @@ macro_rules! typed_build {
         b.build(no_init)
     }};
     (@step $b:expr, $t:expr, bank) => { $b.with_bank(RecBank { inner: BankKeeper::new(), world: $t.bank.clone() }) };
-    (@step $b:expr, $t:expr, custom) => { $b.with_custom(RecCustom { world: $t.custom.clone() }) };
+    (@step $b:expr, $t:expr, custom) => { $b.with_custom(RecCustom { world: $t.custom.clone(), inner: CustomInner::Stub }) };
     (@step $b:expr, $t:expr, staking) => { $b.with_staking(RecStaking { inner: StakeKeeper::new(), world: $t.staking.clone() }) };
     (@step $b:expr, $t:expr, distr) => { $b.with_distribution(RecDistr { inner: DistributionKeeper::new(), world: $t.distr.clone() }) };
-    (@step $b:expr, $t:expr, ibc) => { $b.with_ibc(RecIbc { world: $t.ibc.clone() }) };
-    (@step $b:expr, $t:expr, gov) => { $b.with_gov(RecGov { world: $t.gov.clone() }) };
-    (@step $b:expr, $t:expr, stargate) => { $b.with_stargate(RecStargate { world: $t.stargate.clone() }) };
+    (@step $b:expr, $t:expr, ibc) => { $b.with_ibc(RecIbc { world: $t.ibc.clone(), inner: IbcInner::Stub }) };
+    (@step $b:expr, $t:expr, gov) => { $b.with_gov(RecGov { world: $t.gov.clone(), inner: GovInner::Stub }) };
+    (@step $b:expr, $t:expr, stargate) => { $b.with_stargate(RecStargate { world: $t.stargate.clone(), inner: StargateInner::Stub }) };
 }
 
 type TypedApp = App<RecBank, MockApi, MockStorage, RecCustom, WasmKeeper<SimMsg, SimQuery>, RecStaking, RecDistr, RecIbc, RecGov, RecStargate>;
